@@ -343,7 +343,8 @@ func (h *Host) SetParams(p *ParamsOp) {
 	// service keeper's own SetParams, which a keeper-level cache could observe)
 	ctx := h.Ctx()
 	ss := h.app.GetSubspace(types.ModuleName)
-	cur := h.app.ServiceKeeper.GetParams(ctx)
+	var cur types.Params
+	ss.GetParamSet(ctx, &cur)
 	if p.ServiceFeeTax != "" {
 		d, err := sdk.NewDecFromStr(p.ServiceFeeTax)
 		must(err)
